@@ -277,6 +277,9 @@ pub enum DbOp {
     /// reopen.  If `open` refuses the damaged file the run ends there (that is the answer C15 asks
     /// for); if it opens, the history goes on and is judged like any other.
     DamageManifest(usize, u8),
+    /// (C15, oracle scan_damage only) close, XOR the byte at len * num / den of the newest table
+    /// file with `mask`, reopen
+    DamageTable(usize, usize, u8),
 }
 
 fn make_batch(ops: &[(Vec<u8>, Option<Vec<u8>>)]) -> crate::Batch {
@@ -306,6 +309,7 @@ pub fn run_history(ops: &[DbOp], keys: &[Vec<u8>]) -> Vec<String> {
             DbOp::Plant => {}
             DbOp::ReleaseSnapshot => {}
             DbOp::DamageManifest(_, _) => {}
+            DbOp::DamageTable(_, _, _) => {}
             DbOp::CompactLevel(level, lo, hi) => db.as_ref().unwrap().force_level_compaction(*level, &(lo.as_deref()..hi.as_deref())),
             DbOp::ReopenSmallFiles(n) => {
                 drop(db.take());
@@ -408,6 +412,7 @@ pub fn run_views(ops: &[DbOp], keys: &[Vec<u8>], moves: &str) -> Vec<View> {
                 options.max_file_size = *n;
                 db = Some(DB::open(options.clone()).unwrap());
             }
+            DbOp::DamageTable(_, _, _) => {}
             DbOp::DamageManifest(back, mask) => {
                 use std::io::{Read, Write};
                 snaps.clear();
@@ -818,4 +823,82 @@ pub mod faults {
         let fired = ctl.fired.lock().unwrap().clone();
         Outcome { calls, fired, bad, trace }
     }
+}
+
+// ---- scans and lookups over a damaged table file (C15; oracle scan_damage) ----------------------
+pub struct DamageOutcome {
+    pub open_error: Option<String>,
+    /// per key: "value:<hex>" / "notfound" / "error:.."
+    pub gets: Vec<String>,
+    pub forward: Vec<(Vec<u8>, Vec<u8>)>,
+    pub forward_error: Option<String>,
+    pub backward: Vec<(Vec<u8>, Vec<u8>)>,
+    pub backward_error: Option<String>,
+}
+
+/// Runs the history with small blocks (so that a table has many data blocks), applying
+/// `DamageTable` steps, and reads the final state back through get and both scan directions.
+/// Nothing is unwrapped on the read side: an error is an outcome, not a crash.
+pub fn run_damage(ops: &[DbOp], keys: &[Vec<u8>]) -> DamageOutcome {
+    use crate::RainDbIterator;
+    use std::io::{Read, Write};
+    let mut options = DbOptions::with_memory_env();
+    options.create_if_missing = true;
+    options.max_block_size = 256;
+    let mut out = DamageOutcome { open_error: None, gets: vec![], forward: vec![], forward_error: None, backward: vec![], backward_error: None };
+    let mut db = Some(DB::open(options.clone()).unwrap());
+    for op in ops {
+        match op {
+            DbOp::Put(k, v) => db.as_ref().unwrap().put(WriteOptions::default(), k.clone(), v.clone()).unwrap(),
+            DbOp::Delete(k) => db.as_ref().unwrap().delete(WriteOptions::default(), k.clone()).unwrap(),
+            DbOp::Flush => db.as_ref().unwrap().force_memtable_compaction().unwrap(),
+            DbOp::CompactAll => db.as_ref().unwrap().compact_range(None..None),
+            DbOp::Batch(b) => db.as_ref().unwrap().apply(WriteOptions::default(), make_batch(b)).unwrap(),
+            DbOp::DamageTable(num, den, mask) => {
+                drop(db.take());
+                let fs = options.filesystem_provider();
+                let names = crate::file_names::FileNameHandler::new(options.db_path().to_string());
+                let mut tables: Vec<std::path::PathBuf> = fs.list_dir(&names.get_data_dir()).unwrap_or_default().into_iter()
+                    .filter(|p| p.extension().map_or(false, |e| e == "rdb")).collect();
+                tables.sort_by_key(|p| p.file_stem().and_then(|s| s.to_string_lossy().parse::<u64>().ok()).unwrap_or(0));
+                if let Some(t) = tables.last() {
+                    let mut bytes = vec![];
+                    fs.open_file(t).unwrap().read_to_end(&mut bytes).unwrap();
+                    if !bytes.is_empty() && *den > 0 {
+                        let pos = (bytes.len() * *num / *den).min(bytes.len() - 1);
+                        bytes[pos] ^= *mask;
+                        let mut f = fs.create_file(t, false).unwrap();
+                        f.write_all(&bytes).unwrap();
+                    }
+                }
+                options.create_if_missing = false;
+                match DB::open(options.clone()) {
+                    Ok(d) => db = Some(d),
+                    Err(e) => { out.open_error = Some(format!("{}", e)); return out; }
+                }
+            }
+            _ => {}
+        }
+    }
+    let d = db.as_ref().unwrap();
+    out.gets = keys.iter().map(|k| match d.get(ReadOptions::default(), k) {
+        Ok(v) => format!("value:{}", hexs(&v)),
+        Err(crate::RainDBError::KeyNotFound) => "notfound".to_string(),
+        Err(e) => format!("error:{}", e).replace('\n', " "),
+    }).collect();
+    match d.new_iterator(ReadOptions::default()) {
+        Err(e) => out.forward_error = Some(format!("{}", e)),
+        Ok(mut it) => {
+            if let Err(e) = it.seek_to_first() { out.forward_error = Some(format!("{}", e)); }
+            else { while it.is_valid() { let (k, v) = it.current().unwrap(); out.forward.push((k.clone(), v.clone())); it.next(); } }
+        }
+    }
+    match d.new_iterator(ReadOptions::default()) {
+        Err(e) => out.backward_error = Some(format!("{}", e)),
+        Ok(mut it) => {
+            if let Err(e) = it.seek_to_last() { out.backward_error = Some(format!("{}", e)); }
+            else { while it.is_valid() { let (k, v) = it.current().unwrap(); out.backward.push((k.clone(), v.clone())); it.prev(); } }
+        }
+    }
+    out
 }
